@@ -1,5 +1,6 @@
 import Mieru.Proofs.Arq
 import Mieru.Proofs.Duplex
+import Mieru.Model.Retx
 import Mieru.Gen.Consts
 import Mieru.Gen.Facts
 /-!
@@ -174,6 +175,84 @@ theorem udp_data_flows_after_handshake {W : Nat} (hW : 0 < W) {d : Duplex.St} (h
     ∃ e, Duplex.Steps W d e ∧ d.c.nextRecv < e.c.nextRecv := by
   obtain ⟨c', st, hadv, _⟩ := udp_no_stuck_state hW (Duplex.reach_components h).1 hu
   exact ⟨⟨c', d.s⟩, Duplex.lift_c_established st d.s he, hadv⟩
+
+/-! ## Abandonment needs genuine timeouts (`Mieru.Model.Retx`)
+
+"The connection is not abandoned": a session is given up only when one segment has been transmitted
+`txCountLimit` times. Duplicate acks must not be able to burn that budget: -/
+
+/-- Bookkeeping invariant: an early retransmission needs `txCount ≤ earlyLimit` and raises `txCount`,
+    so the early ones are counted by distinct values of `txCount`. -/
+theorem retx_accounting (earlyRetx earlyLimit : Nat) (es : List Retx.Ev) (s : Retx.Seg)
+    (h : s.early + 1 ≤ s.txCount ∧ s.early ≤ earlyLimit) :
+    (Retx.run earlyRetx earlyLimit s es).early + 1 ≤ (Retx.run earlyRetx earlyLimit s es).txCount ∧
+    (Retx.run earlyRetx earlyLimit s es).early ≤ earlyLimit := by
+  induction es generalizing s with
+  | nil => simpa [Retx.run] using h
+  | cons e es ih =>
+    simp only [Retx.run, List.foldl_cons] at ih ⊢
+    apply ih
+    cases e with
+    | first => simp [Retx.step]; omega
+    | dupAck => simpa [Retx.step] using h
+    | scan t =>
+      simp only [Retx.step]
+      split
+      · simp; omega
+      · split
+        · simp; omega
+        · exact h
+
+/-- Once a segment has been transmitted, however many duplicate acks arrive and however the scans are
+    scheduled, at most `earlyRetransmissionLimit` = 1 of its retransmissions is duplicate-ack driven:
+    abandonment (`txCount ≥ txCountLimit` = 20) needs at least 18 genuine timeouts of that segment. -/
+theorem early_retransmission_bounded (es : List Retx.Ev) :
+    (Retx.run Gen.earlyRetransmission.toNat Gen.earlyRetransmissionLimit.toNat { txCount := 1 } es).early ≤ 1 := by
+  have := retx_accounting Gen.earlyRetransmission.toNat Gen.earlyRetransmissionLimit.toNat es { txCount := 1 } (by decide)
+  have e : Gen.earlyRetransmissionLimit.toNat = 1 := by decide
+  rw [e] at this ⊢
+  exact this.2
+
+/-- every transmission after the first is either duplicate-ack driven or a timeout -/
+theorem retx_total (earlyRetx earlyLimit : Nat) (es : List Retx.Ev) (s : Retx.Seg)
+    (hes : ∀ e ∈ es, e ≠ Retx.Ev.first) (h : s.txCount = 1 + s.early + s.timeouts) :
+    (Retx.run earlyRetx earlyLimit s es).txCount =
+      1 + (Retx.run earlyRetx earlyLimit s es).early + (Retx.run earlyRetx earlyLimit s es).timeouts := by
+  induction es generalizing s with
+  | nil => simpa [Retx.run] using h
+  | cons e es ih =>
+    simp only [Retx.run, List.foldl_cons] at ih ⊢
+    apply ih _ (fun x hx => hes x (by simp [hx]))
+    cases e with
+    | first => exact absurd rfl (hes _ (by simp))
+    | dupAck => simpa [Retx.step] using h
+    | scan t =>
+      simp only [Retx.step]
+      split
+      · simp; omega
+      · split
+        · simp; omega
+        · exact h
+
+/-- Abandonment needs genuine timeouts: a segment reaches `txCountLimit` = 20 transmissions only after
+    at least 18 timeout-driven retransmissions. -/
+theorem abandon_needs_timeouts (es : List Retx.Ev) (hes : ∀ e ∈ es, e ≠ Retx.Ev.first)
+    (h : (Retx.run Gen.earlyRetransmission.toNat Gen.earlyRetransmissionLimit.toNat { txCount := 1 } es).txCount ≥ Gen.txCountLimit.toNat) :
+    (Retx.run Gen.earlyRetransmission.toNat Gen.earlyRetransmissionLimit.toNat { txCount := 1 } es).timeouts ≥ 18 := by
+  have a := early_retransmission_bounded es
+  have b := retx_total Gen.earlyRetransmission.toNat Gen.earlyRetransmissionLimit.toNat es { txCount := 1 } hes (by decide)
+  have c : Gen.txCountLimit.toNat = 20 := by decide
+  rw [c] at h
+  omega
+
+example : (Retx.run 3 1 { txCount := 1 } [.dupAck, .dupAck, .dupAck, .scan false, .dupAck, .dupAck, .dupAck, .scan false, .scan true]).txCount = 3 := by decide
+
+/-- Structural tie (regenerated from session.go): the early-retransmission guard and the abandonment
+    test are the ones the model uses. -/
+theorem early_retransmission_guard :
+    Gen.Facts.earlyRetransmissionGuards =
+      [("Session.runOutputOncePacket", "iter.ackCount >= earlyRetransmission && iter.txCount <= earlyRetransmissionLimit")] ∧
+    Gen.Facts.abandonConditions = [("Session.runOutputOncePacket", "iter.txCount >= txCountLimit")] := by decide
 
 /-- Soundness of the correspondence: every history the executable acceptor accepts (that is what
     the harness feeds it: the events observed on real endpoints) ends in a state satisfying the
